@@ -4,7 +4,9 @@
      model_C11 enum k0 k1 limit   enumerates every maximal history of two callers (one call each, result kinds
                                   k0 k1) against a server that answers each request or rejects it with
                                   bad_server_salt (one rotation in total, naming any request written so far),
-                                  in any order; prints them as scripts for `c11 run c11 script`. *)
+                                  in any order (answers carry an even seq_no: no acknowledgements inside the scope; the
+                                  closing procedure of the harness then exercises them); prints them as scripts for
+                                  `c11 run c11 script`.  Interleavings are reduced by taking invisible steps eagerly. *)
 
 let rec z_of_int (i : int) : z =
   if i = 0 then Z0 else if i > 0 then Zpos (pos_of_int i) else Zneg (pos_of_int (- i))
@@ -208,8 +210,8 @@ let enum k0 k1 limit =
     List.iter (fun t ->
         match latest t with
         | Some id when not answered.(t) && in_table id ->
-          add (L1 (LSrv ((z_of_int (nsid + 1), z_of_int 1), mk t id)))
-            (Printf.sprintf "srv %d 1 %s" (nsid + 1) (txt t)) (fun _ a -> a.(t) <- true; false)
+          add (L1 (LSrv ((z_of_int (nsid + 1), z_of_int 0), mk t id)))
+            (Printf.sprintf "srv %d 0 %s" (nsid + 1) (txt t)) (fun _ a -> a.(t) <- true; false)
         | _ -> ()) [0; 1];
     (* the one rotation: bad_server_salt naming any frame written so far (pending, answered, earlier attempt) *)
     if not rotated then
@@ -218,13 +220,23 @@ let enum k0 k1 limit =
               add (L1 (LSrv ((z_of_int (nsid + 3), z_of_int 0), BBadSalt (id, z_of_int 777))))
                 (Printf.sprintf "srv %d 0 badsalt @%d.0.%d 777" (nsid + 3) t j)
                 (fun _ a -> (if Some id = latest t && in_table id then a.(t) <- false); true)) (frames t)) [0; 1];
-    match !moves with
+    (* partial-order reduction: a step that commutes with every step of the other actors and can only enable
+       them is taken at once, alone - starting a call, leaving sendPacket (written -> prerecv: releases the
+       lock), taking the next frame from the socket (read -> dispatch).  Everything else branches. *)
+    let eager (_, line, _) =
+      (String.length line > 4 && String.sub line 0 4 = "call") ||
+      (List.exists (fun t -> line = Printf.sprintf "step c%d" t &&
+                             (match (getc_i t s.base).c_pc with CWritten _ -> true | _ -> false)) [0; 1]) ||
+      (line = "step rx" && (match s.base.rx with RRead -> true | _ -> false)) in
+    let ms = List.rev !moves in
+    let ms = match List.filter eager ms with e :: _ -> [e] | [] -> ms in
+    match ms with
     | [] -> emit path
     | ms ->
       List.iter (fun (s', line, upd) ->
           let c = Array.copy called and a = Array.copy answered in
           let rot = upd c a in
-          go s' (line :: path) c a (rotated || rot) (clk + 1) (nsid + 8)) (List.rev ms)
+          go s' (line :: path) c a (rotated || rot) (clk + 1) (nsid + 8)) ms
   in
   go s0 [] [| false; false |] [| false; false |] false 1 0;
   Printf.eprintf "enum %s %s: %d maximal histories, %d printed\n" k0 k1 !total !count
